@@ -262,6 +262,16 @@ pub struct DatabaseIterator {
 
     /// A cached value. This value does not necessarily correlate to the `cached_key` field.
     cached_value: Option<Vec<u8>>,
+
+    /**
+    The first read error met since the iterator was last positioned with one of the `seek*`
+    methods.
+
+    The child iterators forget an error when they are re-positioned, which also happens
+    internally e.g. when the direction of iteration changes. The position after an error is not
+    reliable, so the error is kept here until the caller re-positions the iterator itself.
+    */
+    maybe_read_error: Option<RainDBError>,
 }
 
 /// Crate-only methods
@@ -286,12 +296,20 @@ impl DatabaseIterator {
             cached_user_key: None,
             cached_value: None,
             compaction_worker,
+            maybe_read_error: None,
         }
     }
 }
 
 /// Private methods
 impl DatabaseIterator {
+    /// Keep the first read error reported by the child iterators until the next `seek*` call.
+    fn record_read_error(&mut self) {
+        if self.maybe_read_error.is_none() {
+            self.maybe_read_error = self.inner_iter.status();
+        }
+    }
+
     /**
     Get samples of read statistics for the current key.
 
@@ -472,6 +490,7 @@ impl RainDbIterator for DatabaseIterator {
     }
 
     fn seek(&mut self, target: &Self::Key) -> Result<(), Self::Error> {
+        self.maybe_read_error = None;
         self.direction = DbIterationDirection::Forward;
         self.cached_value = None;
         self.cached_user_key = Some(target.clone());
@@ -491,6 +510,7 @@ impl RainDbIterator for DatabaseIterator {
     }
 
     fn seek_to_first(&mut self) -> Result<(), Self::Error> {
+        self.maybe_read_error = None;
         self.direction = DbIterationDirection::Forward;
         self.cached_value = None;
         self.inner_iter.seek_to_first()?;
@@ -507,6 +527,7 @@ impl RainDbIterator for DatabaseIterator {
     }
 
     fn seek_to_last(&mut self) -> Result<(), Self::Error> {
+        self.maybe_read_error = None;
         self.direction = DbIterationDirection::Backward;
         self.cached_value = None;
         self.inner_iter.seek_to_last()?;
@@ -517,6 +538,7 @@ impl RainDbIterator for DatabaseIterator {
 
     fn next(&mut self) -> Option<(&Self::Key, &Vec<u8>)> {
         assert!(self.is_valid);
+        self.record_read_error();
 
         if self.direction == DbIterationDirection::Backward {
             self.direction = DbIterationDirection::Forward;
@@ -551,6 +573,7 @@ impl RainDbIterator for DatabaseIterator {
         }
 
         self.find_next_client_entry(true);
+        self.record_read_error();
 
         if !self.is_valid() {
             return None;
@@ -561,6 +584,7 @@ impl RainDbIterator for DatabaseIterator {
 
     fn prev(&mut self) -> Option<(&Self::Key, &Vec<u8>)> {
         assert!(self.is_valid);
+        self.record_read_error();
 
         if self.direction == DbIterationDirection::Forward {
             // The inner iterator is point at the current entry. Scan backwards until the user key
@@ -585,6 +609,7 @@ impl RainDbIterator for DatabaseIterator {
         }
 
         self.find_prev_client_entry();
+        self.record_read_error();
 
         if !self.is_valid() {
             return None;
@@ -611,6 +636,8 @@ impl RainDbIterator for DatabaseIterator {
     }
 
     fn status(&self) -> Option<Self::Error> {
-        self.inner_iter.status()
+        self.maybe_read_error
+            .clone()
+            .or_else(|| self.inner_iter.status())
     }
 }
